@@ -152,7 +152,7 @@ def correspondence(ctx):
     nmax = 14 if ctx.thorough else 12
     # -- QFT
     cases = []
-    for n in range(1, nmax + 1):
+    for n in list(range(1, nmax + 1)) + [16, 20, 24] + ([32, 40] if ctx.thorough else []):
         for ws in (1, 0):
             cases.append((f"QFT {n} {ws}", real(lambda: queue_text(QFT(n, with_swaps=bool(ws)).queue)), f"QFT({n}, with_swaps={bool(ws)})"))
     cases.append(("QFT 5 1", real(lambda: queue_text(QFT(5).queue)), "QFT(5)"))  # default argument
@@ -200,7 +200,11 @@ def correspondence(ctx):
             inits.append([1] * k + [0] * (n - k))
     # initial strings used by the hyperspherical binary encoder (recorded from the real code)
     rec = []
-    orig = E._ehrlich_algorithm
+    orig = getattr(E, "_ehrlich_algorithm", None)
+    if orig is None:
+        ctx.ob("C20_corr_ehrlich", False, "correspondence", "models/encodings.py has no _ehrlich_algorithm any more")
+        ctx.ob("C20_corr_hw_skeleton", False, "correspondence", "not run")
+        return
 
     def spy(initial_string, return_indices=True):
         rec.append([int(b) for b in initial_string])
@@ -413,6 +417,25 @@ def search_unary(ctx):
                                    f"run(E.unary_encoder(x, {arch!r}))", "unary_target(x0)", setup, "C20_search_unary")
                 ok &= good
                 ctx.stat(f"unary:{arch}:{kind}")
+    # large registers in the one-hot subspace (T20_unary_network: an RBS network acts on the
+    # amplitude vector by Givens rotations, so 2^n amplitudes are never needed)
+    amp = ("def unary_amps(c, n):\n    q = c.queue\n    assert q[0].name == 'x' and q[0].target_qubits == (n - 1,) and not q[0].control_qubits\n"
+           "    A = np.zeros(n); A[n - 1] = 1.0\n    for g in q[1:]:\n        assert g.name == 'rbs' and not g.control_qubits\n"
+           "        a, b = g.target_qubits; t = float(g.parameters[0])\n        A[a], A[b] = np.cos(t)*A[a] - np.sin(t)*A[b], np.sin(t)*A[a] + np.cos(t)*A[b]\n"
+           "    return A[::-1]\n")
+    for arch in ("diagonal", "tree"):
+        big = ([32, 64] + ([128] if ctx.thorough else [])) if arch == "tree" else [13, 17, 33, 64]
+        for n in [8] + big:
+            for kind, x in data_vectors(rng, n, False, 10):
+                cls = "zero-pair" if (arch == "tree" and has_zero_pair(x)) else ("sparse" if (x == 0).any() else "dense")
+                setup = amp + f"x = {arr_repr(x)}\nx0 = x.copy()\n"
+                ok &= check_state(ctx, f"unary_encoder:{arch}:{cls}", f"unary_encoder on {n} qubits ({arch}), amplitude vector in the one-hot subspace",
+                                  f"unary_amps(E.unary_encoder(x, {arch!r}), {n})", "x0/np.linalg.norm(x0)", setup, "C20_search_unary")
+                ctx.stat(f"unary_big:{arch}:n{n}")
+        # the subspace simulation agrees with the full execution
+        setup = amp + "x = np.array([3., -1., 0., 5., 1., 1., -4., 2.])\n"
+        ok &= check_state(ctx, f"unary_encoder:{arch}:subspace", "full state vs one-hot amplitude simulation",
+                          f"run(E.unary_encoder(x, {arch!r}))[[2**k for k in range(8)]]", f"unary_amps(E.unary_encoder(x, {arch!r}), 8)", setup, "C20_search_unary")
     # exhaustive tiny integer data for n = 4 (all sign / zero patterns)
     for arch in ("diagonal", "tree"):
         for pat in itertools.product((-1.0, 0.0, 2.0), repeat=4):
@@ -489,6 +512,48 @@ def search_hw(ctx):
     ctx.ob("C20_search_hw", ok, "search", "" if ok else "Hamming-weight encoder differs from x/|x| on the weight-k states (ascending order)")
 
 
+def chain_hypotheses(ctx):
+    """hypotheses of T20_hw_chain on the REAL circuits (real data): gate k is an RBS on
+    (a, b) controlled on cs; with v_k the k-th Ehrlich string read as a basis label it must
+    find v_k with a=1, b=0, controls on, produce v_{k+1} by exchanging a and b, and leave
+    every earlier v_j alone (a control off, or equal bits at a and b)."""
+    E = ns()["E"]
+    rng = ctx.rng
+    bad = []
+    nmax = 9 if ctx.thorough else 8
+    for n in range(2, nmax + 1):
+        for k in range(1, n):
+            for oc in (True, False):
+                ctx.case(("chain-hyp", n, k, oc))
+                ctx.stat("chain_hypotheses")
+                try:
+                    d = math.comb(n, k)
+                    data = np.array([rng.uniform(-1, 1) for _ in range(d)])
+                    c = E.hamming_weight_encoder(data, n, k, optimize_controls=oc)
+                    strings = E._ehrlich_algorithm(np.array([1] * k + [0] * (n - k)), False)
+                    v = [[ch == "1" for ch in st] for st in strings]
+                    gs = [g for g in c.queue if g.name != "x"]
+                    xs = sorted(g.target_qubits[0] for g in c.queue if g.name == "x")
+                    good = xs == [q for q in range(n) if v[0][q]] and len(gs) == d - 1 and all(g.name == "rbs" for g in gs)
+                    for i, g in enumerate(gs):
+                        if not good:
+                            break
+                        a, b = g.target_qubits
+                        cs = list(g.control_qubits)
+                        good &= a != b and a not in cs and b not in cs
+                        good &= v[i][a] and not v[i][b] and all(v[i][q] for q in cs)
+                        nxt = list(v[i])
+                        nxt[a], nxt[b] = nxt[b], nxt[a]
+                        good &= nxt == v[i + 1]
+                        good &= all((not all(v[j][q] for q in cs)) or v[j][a] == v[j][b] for j in range(i))
+                except Exception as e:  # noqa: BLE001
+                    good = False
+                if not good:
+                    bad.append((n, k, oc))
+    ctx.ob("C20_hw_chain_hypotheses", not bad, "correspondence",
+           f"the gates of hamming_weight_encoder do not form a loading chain along the Ehrlich strings for (n, k, optimize_controls) in {bad[:5]}" if bad else "")
+
+
 def search_binary(ctx):
     rng = ctx.rng
     ok = True
@@ -557,6 +622,7 @@ def run(ctx):
     search_simple(ctx)
     search_unary(ctx)
     search_hw(ctx)
+    chain_hypotheses(ctx)
     search_binary(ctx)
     search_layers(ctx)
     ctx.notes.append(
@@ -564,7 +630,8 @@ def run(ctx):
         "QFT n<=12 with/without swaps, comp_basis_encoder all strings n<=5 x input types + int inputs, ghz n<=12, _generate_rbs_pairs diagonal n<=12 / tree n<=32, "
         "unary_encoder queues, _ehrlich_algorithm strings + (targets, controls) for all (n<=9, k) and the initial strings the hyperspherical encoder uses, "
         "hamming_weight_encoder skeleton n<=7 all k x optimize_controls x full_hwp; "
-        "search: QFT unitary vs DFT n<=7 with/without swaps, every encoder applied to |0..0> vs normalised target on the documented basis states with dense / negative / "
+        "hypotheses of T20_hw_chain verified on the real hamming_weight_encoder circuits n<=8 all k, with/without optimize_controls; "
+        "search: QFT unitary vs DFT n<=8 with/without swaps, every encoder applied to |0..0> vs normalised target on the documented basis states with dense / negative / "
         "zero-containing / one-hot / complex data, documented errors")
     ctx.assumptions.append("gate classes act as documented (C01); arctan2 / acos angle formulas are tied to the data numerically (search), in the theorems the cos/sin of the RBS angles are abstract scalars constrained by r_k c_k = x_k, r_k s_k = r_(k+1)")
     ctx.assumptions.append("binary encoders (hyperspherical / Hopf), complex-phase bookkeeping of the Hamming-weight encoder and phase_encoder are covered by search only")
